@@ -682,6 +682,71 @@ impl Family for PushChk {
     }
 }
 
+/// DPBLOCK: the white king is checked by a black slider along a rank or diagonal that crosses the
+/// square two in front of a white home-rank pawn (so the double step interposes and the single step
+/// does not); black king anywhere, optionally one more black piece and one more white piece (N or P)
+/// anywhere. White to move, in check. For "has the side to move any legal move" when the only
+/// legal move is a pawn's double step.
+pub struct DpBlock;
+impl Family for DpBlock {
+    fn name(&self) -> String {
+        "DPBLOCK".into()
+    }
+    fn len(&self) -> u64 {
+        8 * 6 * 7 * 7 * 2 * 64 * 5 * 64 * 3 * 64
+    }
+    fn decode(&self, mut i: u64) -> Option<Pos> {
+        let mut take = |n: u64| -> u64 {
+            let v = i % n;
+            i /= n;
+            v
+        };
+        let bk = take(64) as u8;
+        let xkind = take(5) as usize;
+        let xsq = take(64) as u8;
+        let wkind = take(3) as usize;
+        let wsq = take(64) as u8;
+        let f = take(8) as i8;
+        let (df, dr) = [(1i8, 0i8), (-1, 0), (1, 1), (1, -1), (-1, 1), (-1, -1)][take(6) as usize];
+        let a = take(7) as i8 + 1;
+        let b = take(7) as i8 + 1;
+        let queen = take(2) == 0;
+        if (xkind == 0 && xsq != 0) || (wkind == 0 && wsq != 0) {
+            return None;
+        }
+        let wk = sq_at(f + a * df, 4 + a * dr)?;
+        let checker = sq_at(f - b * df, 4 - b * dr)?;
+        let mut p = Pos::empty();
+        let pawn = sq_at(f, 6)?;
+        p.board[pawn as usize] = pc(WHITE, PAWN);
+        let kind = if queen { QUEEN } else if dr == 0 { ROOK } else { BISHOP };
+        let free = [sq_at(f, 5)?, sq_at(f, 4)?];
+        let mut placed: Vec<(u8, u8)> = vec![(wk, pc(WHITE, KING)), (checker, pc(BLACK, kind)), (bk, pc(BLACK, KING))];
+        if xkind != 0 {
+            placed.push((xsq, pc(BLACK, [QUEEN, ROOK, BISHOP, KNIGHT][xkind - 1])));
+        }
+        if wkind != 0 {
+            let k = [KNIGHT, PAWN][wkind - 1];
+            if k == PAWN && (row_of(wsq) == 0 || row_of(wsq) == 7) {
+                return None;
+            }
+            placed.push((wsq, pc(WHITE, k)));
+        }
+        for (sq, piece) in placed {
+            if p.board[sq as usize] != EMPTY || free.contains(&sq) {
+                return None;
+            }
+            p.board[sq as usize] = piece;
+        }
+        p.stm = WHITE;
+        if p.is_legal_position() && p.in_check(WHITE) {
+            Some(p)
+        } else {
+            None
+        }
+    }
+}
+
 /// PAWN7: a white pawn on its 7th rank (every file), both kings, one further white piece and one
 /// black piece (every pair of kinds from Q R B N) anywhere, both sides to move: promotions and
 /// under-promotions with something to lose or to win on the way.
